@@ -57,13 +57,13 @@ ASSUMPTIONS = [
     "region bounds on a record whose REF allele is longer than one base: either reading (overlap / position) is accepted "
     "by holds; cross-format equality of region reads is checked only when every REF is one base long or the region is a "
     "whole contig",
-    "a sample restriction that selects no sample at all is not checked by holds (cyvcf2 -> AttributeError, pgenlib -> "
-    "RuntimeError; compared by agree only) unless STRICT_EMPTY_SAMPLE_SELECTION is set",
+    "a sample restriction that selects no sample at all is checked like every other empty match since fix 1b2885e "
+    "(no sample, no call, a warning, no exception; switch STRICT_EMPTY_SAMPLE_SELECTION, on by default)",
     "a region is only given to the VCF reader when the file has an index (htslib needs one; an un-indexed or unsorted "
     "file is read with the sample / ID / max_variants restrictions only); the PGEN reader gets every query",
     "seq: a subset() call made on the object of a VCF read that matched nothing (array of shape (0, 0, 0) beside the "
-    "samples found) is not checked by holds (IndexError; compared by agree only) unless "
-    "STRICT_SUBSET_AFTER_EMPTY_READ is set; calls made on an object with duplicate names (left by a request that "
+    "samples found) is checked like every other subset() since fix 09a826e (switch "
+    "STRICT_SUBSET_AFTER_EMPTY_READ, on by default); calls made on an object with duplicate names (left by a request that "
     "repeats a name) are outside the domain (ValueError, compared by agree)",
 ]
 
@@ -75,27 +75,27 @@ ASSUMPTIONS = [
 # empty result with a warning, never a crash".  False (default) = the tree as it is: the model raises the same
 # kinds (agree compares them) and holds does not look at such queries.  True = after
 # fixes/C08_empty_sample_selection.patch: the model is the repaired reader (C08_Model.vcf_read_x / pgen_read_x
-# with flag true: the selected variants, no sample, VCF array (0, 0, 0), PGEN array (0, p, 3); theorems
+# (now the default) with flag true: the selected variants, no sample, VCF array (0, 0, 0), PGEN array (0, p, 3); theorems
 # C08_vcf_read_x_spec / C08_pgen_read_x_spec hold without the hypothesis selected_samples <> []) and holds
 # demands "no sample, no call, a warning, no exception".  Flipping it on the unrepaired tree yields
 #   VIOLATION property=C08 ...   signature "read: vcf read raised AttributeError; vcf iter raised AttributeError;
 #   pgen read raised RuntimeError; pgen iter raised RuntimeError; ... no-sample-selected=True"
 # (relation read) and "seq[vcf|pgen]: read raised ...; no-sample-selected=True ..." (relation seq): the specific
 # signature a known-finding entry can match on.  Also settable with HV_C08_STRICT_EMPTY_SAMPLE_SELECTION=1.
-STRICT_EMPTY_SAMPLE_SELECTION = os.environ.get("HV_C08_STRICT_EMPTY_SAMPLE_SELECTION", "0") == "1"
+STRICT_EMPTY_SAMPLE_SELECTION = os.environ.get("HV_C08_STRICT_EMPTY_SAMPLE_SELECTION", "1") == "1"
 
 # Switch for the integrator: Genotypes.read leaves an array of shape (0, 0, 0) beside the samples it found when
 # nothing matched (VCF/BCF; also a file without records); subset(samples=...) on that object raises
 # "IndexError: index 0 is out of bounds for axis 0 with size 0" as soon as one requested sample is known (same
 # for variants= once the object lists variants), e.g. g.read(variants={"nope"}); g.subset(samples=("a",)).
-# False (default) = the tree as it is: the model (C08_Model.subset_impl false) raises IndexError there, agree
+# False = the tree before fix 09a826e: the model (C08_Model.subset_impl false) raises IndexError there, agree
 # compares the kind, holds skips subset() calls made on such an object.  True = after
 # fixes/C08_subset_after_empty_read.patch: model subset_impl true (never raises, theorem C08_subset_impl_total),
 # holds demands the requested samples/variants there too.  Flipping it on the unrepaired tree yields
 #   VIOLATION property=C08 ...   signature "seq[vcf]: ... subset ... raised IndexError (object of a read that
 #   matched nothing: array without cells); ... subset-on-array-without-cells=True".
 # Also settable with HV_C08_STRICT_SUBSET_AFTER_EMPTY_READ=1.
-STRICT_SUBSET_AFTER_EMPTY_READ = os.environ.get("HV_C08_STRICT_SUBSET_AFTER_EMPTY_READ", "0") == "1"
+STRICT_SUBSET_AFTER_EMPTY_READ = os.environ.get("HV_C08_STRICT_SUBSET_AFTER_EMPTY_READ", "1") == "1"
 
 # ----------------------------------------------------------------------------
 # content and queries
@@ -1040,11 +1040,10 @@ LEVEL_NOTE = (
     "and phase of heterozygous calls for every pgenlib meeting the C07 contract) under the hypothesis that the region has "
     "no start or every REF allele is one base long (htslib selects by REF overlap, the PGEN reader by position); the run "
     "compares region reads across formats under the same condition and only when the VCF has an index. Two defects of "
-    "/repo found by this check are reported behind switches that default to the tree as it is (model = current behaviour, "
-    "holds does not look): a sample restriction that selects nobody raises inside cyvcf2/pgenlib "
-    "(STRICT_EMPTY_SAMPLE_SELECTION, fixes/C08_empty_sample_selection.patch), and subset() on the object of a VCF read "
-    "that matched nothing raises IndexError (STRICT_SUBSET_AFTER_EMPTY_READ, fixes/C08_subset_after_empty_read.patch); the "
-    "theorems about the unrepaired readers therefore assume selected_samples <> [] (C08_vcf_read_x_spec / "
-    "C08_pgen_read_x_spec state the repaired readers without it)."
+    "/repo found by this check were repaired (a sample restriction that selects nobody raised inside pgenlib: fix 1b2885e; "
+    "subset() on the object of a VCF read that matched nothing raised IndexError: fix 09a826e); the model is the repaired "
+    "reader (switches STRICT_EMPTY_SAMPLE_SELECTION / STRICT_SUBSET_AFTER_EMPTY_READ on) and holds demands the empty result "
+    "with a warning there too (C08_vcf_read_x_spec / C08_pgen_read_x_spec state the repaired readers without the hypothesis "
+    "selected_samples <> [] that the theorems about the unrepaired readers carry)."
 )
 TECHNIQUE = "Coq proof by induction on record lists + vm_compute-evaluated correspondence against haptools on pysam/pgenlib-written files"
